@@ -197,3 +197,21 @@ check("C12", "model_checking",
       "thorough: 342k shapes, MaxDev 2, 6 state classes, + 50k sampled from MaxDev 3); bytes inside a shape are seeded samples; async "
       "pool hops folded into the call; nil libp2p host; fast sync / snapshot download / engine loops not driven; four findings fixed",
       "TLA+ shape-table model + TLC-exported shapes instantiated on the real read path + TLC trace validation", "DESIGN.md#c12")
+
+HOOK_COMMITS += ["5db70277"]
+
+check("C14", "model_checking",
+      "MempoolAbs.tla states the property as clauses over explicit pre/post/event records (Candidate: per-sender consecutive nonces "
+      "from the committed state, gas cap, no duplicates; Accepted/Retained; BlockCleared; NoStale; WellFormed); Mempool.tla is the "
+      "implementation-shaped pool (DoAdd with sync deferral, limits and executable/pending placement; DoReset with removal, promotion "
+      "and the lowest-invalid-nonce cascade; DoStopSync; DoBuild with priority chains, fee filter and gas cap) and TLC checks that it "
+      "refines the abstract spec on bounded ledgers; every TLC-exported scenario and seeded random scenarios are executed on the REAL "
+      "TxPool over a real AppState, and TLC validates the recorded pool snapshots against Trace_MempoolAbs (clauses = verdict, "
+      "prediction = drift). The 'never deadlock, race or panic' clause is decided on real goroutines (race detector, panic, watchdog), "
+      "with quiescent states fed through the same trace spec.",
+      "quick: 303k transitions / 55k states depth 5, 690 exported + 48 random scenarios; thorough: 2.8M transitions depth 6 + unlimited "
+      "and ceremony side models, ~4900 + 1200 scenarios, 12 concurrent runs; ledger state, ValidateTx verdicts and block contents are "
+      "bound from observation; deferred channel capacity, tx keeper persistence and nonce-cache values are outside; the concurrent "
+      "part samples schedules (race detector), it is not exhaustive; two race findings fixed, one known (shared StateDB object caches)",
+      "TLA+ refinement model + TLC-exported scenarios on the real TxPool + TLC trace validation; race detector for the concurrency clause",
+      "DESIGN.md#c14")
